@@ -66,9 +66,8 @@ HasTie(r) == \E i \in DOMAIN r.file : Considered(r, i - 1) /\ \E j \in DOMAIN r.
    contributes nothing *)
 TrackSound(track, res) ==
     LET nt == TrackNotes(track)
-        end == MaxOf({nt[j].t : j \in DOMAIN nt}, 0)
     IN UNION {UNION {{<<k[1], k[2], t>> : t \in RoundHalfEven(iv[1], res) .. (RoundHalfEven(iv[2], res) - 1)} :
-                       iv \in IntervalsKey(nt, k, end)} : k \in KeysOf(nt)}
+                       iv \in ClosedIntervalsKey(nt, k)} : k \in KeysOf(nt)}
 GroupSound(r, g) == UNION {TrackSound(r.file[i + 1], r.res) : i \in SeqRange(r.groups[g])}
 FileSigs(r, kind) ==
     LET all == UNION {{[m |-> m, i |-> i] : m \in {x \in SeqRange(r.file[i]) : x.ty = kind}} : i \in {q \in DOMAIN r.file : Considered(r, q - 1)}}
